@@ -104,17 +104,27 @@ def run(tier, seed):
                               {"request": rq, "model": a, "implementation": h}, no_input=True)
         if h.startswith("ok") and ln <= max_body(exp, d):
             hdr = re.match(r"ok hdr=([0-9a-f]*)", h).group(1)
-            for api in ("enum", "expect"):
+            for api in ("enum", "expect", "expectother"):
                 for (dl, extra) in ((0, 0), (0, 3), (2, 5)):
                     # stream = hdr ++ (ln + dl body bytes) ++ extra: the reader must consume exactly hdr + ln bytes
-                    if ln > 70000 and (dl or api == "expect" and extra):
+                    if ln > 70000 and (dl or api != "enum" and extra):
+                        continue
+                    if api == "expectother" and (dl or ln % 7 not in (0, 3) and ln > 64):
                         continue
                     reads.append(f"rframe {exp} {d} {api} {hdr} {ln + dl} {rng.below(256)} {extra}")
                     rmeta.append((exp, d, api, len(hdr) // 2, ln, dl, extra))
-    mo2 = run_parallel(drv, reads, jobs=12)
+    mo2 = run_parallel(drv, [r_ if " expectother " not in r_ else "noop" for r_ in reads], jobs=12)
     ho2 = run_parallel(har, reads, jobs=12)
     for (exp, d, api, hl, ln, dl, extra), rq, a, h in zip(rmeta, reads, mo2, ho2):
         bad = None
+        if api == "expectother":
+            # the typed helper asked for another message type: opcode error, and exactly the announced bytes consumed (oracle from the
+            # property statement; this path is not in the Lean model)
+            mo_ = re.match(r"err opcode (\d+) (\d+) consumed=(\d+)", h)
+            if not mo_ or int(mo_.group(3)) != hl + ln:
+                rep.violation(f"C02/{exp}-{d}/read-expect-other", f"{exp} {d} expect helper asked for another message type than the {ln}-byte message on the stream: '{h}' (must report the opcode and consume {hl + ln} bytes)",
+                              {"input": rq, "implementation": h, "replay_cmd": f"echo '{rq}' | {har}"})
+            continue
         m = re.match(r"ok op=(\d+) bodylen=(\d+) bodyok=(\d) consumed=(\d+)", h)
         if ln <= 65535:
             if not m:
@@ -132,33 +142,33 @@ def run(tier, seed):
     seqs, smeta = [], []
     for exp in EXPS:
         for d in DIRS:
-            for api in ("enum", "expect"):
+            for api in ("enum", "expect", "expectother"):
                 for _ in range(6 if tier == "quick" else 60):
                     k = 1 + rng.below(20)
                     pool = [0, 1, 2, 100, 0x7FFB, 0x7FFC, 0x7FFD, 0x7FFE, 0x7FFF, 0x8000, 40000, 65529]
                     ls = [rng.choice(pool) if rng.below(3) == 0 else rng.below(300) for _ in range(k)]
                     seqs.append(f"seq {exp} {d} {api} {','.join(map(str, ls))}")
                     smeta.append((exp, d, api, ls))
-    mo3 = run_parallel(drv, seqs, jobs=12)
-    ho3 = run_parallel(har, seqs, jobs=12)
+    mo3 = run_parallel(drv, [q_.replace(" expectother ", " expect ") for q_ in seqs], jobs=12)
+    ho3 = [re.sub(r" skip@", " SKIP@", x) for x in run_parallel(har, seqs, jobs=12)]
     for (exp, d, api, ls), rq, a, h in zip(smeta, seqs, mo3, ho3):
         hl = lambda n: (3 if (exp == "wrath" and d == "server" and n + 2 > 0x7FFF) else 2) + (4 if d == "client" else 2)
         pos, want = 0, "ok"
-        for n in ls:
+        for i_, n in enumerate(ls):
             pos += hl(n) + n
-            want += f" {n}@{pos}"
+            want += f" SKIP@{pos}" if (api == "expectother" and i_ % 2 == 1) else f" {n}@{pos}"
         want += f" end={pos}"
         if h != want:
             rep.violation(f"C02/{exp}-{d}/stream-{api}", f"a concatenation of {len(ls)} written messages does not decode to the same sequence: got '{h[:200]}', want '{want[:200]}'",
                           {"input": rq, "implementation": h, "expected": want, "model": a, "replay_cmd": f"echo '{rq}' | {har}"})
-        elif a != h:
+        elif api != "expectother" and a != h:      # the skip path is outside the Lean model (oracle: the property statement)
             rep.violation(f"C02/correspondence/{exp}-{d}/stream-{api}", f"model and implementation differ on '{rq[:100]}'", {"request": rq, "model": a, "implementation": h}, no_input=True)
     # ---- the encrypted variants of every reader/writer at the header-form boundaries (sequences of two messages)
     ereqs, emeta = [], []
     for exp in EXPS:
         for d in DIRS:
             cap = max_body(exp, d) - (2 if not (exp == "wrath" and d == "server") else 0)
-            for api in ("enum", "expect"):
+            for api in ("enum", "expect", "expectother"):
                 for l in [0, 1, 299, 0x7FFA, 0x7FFB, 0x7FFC, 0x7FFD, 0x7FFE, 0x7FFF, 0x8000, 0x8001, 40000] + ([70000] if exp == "wrath" and d == "server" else []):
                     l = min(l, cap)
                     ereqs.append(f"eseq {exp} {d} {api} {rng.bytes(40).hex()} w{l},w3")
